@@ -17,6 +17,7 @@ structure Chain where
   purchased : Bool := false
   startedAt : Int := 0
   len       : Int := 0
+  speed     : Int := 0          -- GH/s; together with `len` the commercial terms of the (next) purchase
   payload   : Payload := .empty
 deriving Repr, DecidableEq
 
@@ -25,6 +26,7 @@ structure Terms where
   purchased : Bool := false     -- a start time is set only for a purchased contract
   startedAt : Int := 0
   len       : Int := 0
+  speed     : Int := 0
   dest      : Option String := none
 deriving Repr, DecidableEq
 
@@ -39,7 +41,7 @@ def Terms.shouldRun (t : Terms) (now : Int) : Bool := t.purchased && decide (now
 
 /-- `EncryptedTerms.Decrypt`: terms (destination nil unless the payload decrypts to a URL) and whether it failed -/
 def load (ch : Chain) : Terms × Bool :=
-  let base : Terms := { purchased := ch.purchased, startedAt := ch.startedAt, len := ch.len }
+  let base : Terms := { purchased := ch.purchased, startedAt := ch.startedAt, len := ch.len, speed := ch.speed }
   match ch.payload with
   | .valid h => ({ base with dest := some h }, false)
   | .empty => (base, false)
@@ -82,11 +84,37 @@ def onDestUpdated (c : Ctl) (ch : Chain) (now : Int) : Ctl :=
     -- (re)started — and, started on a contract that is over, stops by itself ten seconds later (`exitAt`)
     { terms := l.1, run := some now, err := false }
 
+/-- `handlePurchaseInfoUpdated` (the seller changed price / speed / length): the terms are read again and
+handed to the watcher, which refuses them while it is running ("terms will apply after closeout") -/
+def onTermsUpdated (c : Ctl) (ch : Chain) : Ctl :=
+  let l := load ch
+  if c.run.isSome then { c with err := l.2 } else { c with terms := l.1, err := l.2 }
+
 /-- a fresh controller (start-up, restart): the factory hands it the terms without a destination -/
 def boot (ch : Chain) (now : Int) : Ctl :=
-  let t : Terms := { purchased := ch.purchased, startedAt := ch.startedAt, len := ch.len }
+  let t : Terms := { purchased := ch.purchased, startedAt := ch.startedAt, len := ch.len, speed := ch.speed }
   let c : Ctl := { terms := t }
   if t.shouldRun now then onPurchased c ch now else c
+
+/-- the events of one contract's life as the node sees them -/
+inductive Ev where
+  | purchased | closed | destUpdated | termsUpdated | restart | tick
+deriving Repr, DecidableEq
+
+/-- one event, handled at `now` with the chain answering `ch`: the watcher first stops by itself if its time
+has come (`settle`), then the handler runs; a restart builds a fresh controller from the chain -/
+def apply (c : Ctl) (e : Ev) (ch : Chain) (now : Int) : Ctl :=
+  let c := settle c now
+  match e with
+  | .purchased => onPurchased c ch now
+  | .closed => onClosed c ch
+  | .destUpdated => onDestUpdated c ch now
+  | .termsUpdated => onTermsUpdated c ch
+  | .restart => boot ch now
+  | .tick => c
+
+/-- a whole history: each event with what the chain answers at that moment and the time -/
+def runHist (c : Ctl) (h : List (Ev × Chain × Int)) : Ctl := h.foldl (fun c x => apply c x.1 x.2.1 x.2.2) c
 
 /-- is the watcher fulfilling, and towards which pool -/
 def fulfilling (c : Ctl) : Option String := if c.run.isSome then c.terms.dest else none
